@@ -50,7 +50,10 @@ ASSUMPTIONS = [
     'Year 0000 exists and is a leap year (ISO 8601 proleptic Gregorian).',
     'The iso8601 lru caches are cleared when a case starts (init() '
     'parameters change between cases, never inside one); inside a case they '
-    'are left alone.',
+    'are left alone.  A quarter of the datetime cases first compare the '
+    'same point strings under a different calendar and then re-initialise '
+    'WITHOUT clearing the caches (one process loading two workflows): the '
+    'answers must be those of the calendar in force.',
 ]
 MANIFEST = {'engine': 'P', 'technique': 'Hypothesis, independent calendar '
             'arithmetic oracle'}
@@ -298,8 +301,14 @@ def iso_cases(draw):
         if draw(st.integers(0, 3)) == 0:
             s = '-' + s
         ivs.append(s)
-    return {'mode': 'iso', 'cal': cal, 'tz': tz, 'xyd': xyd,
+    case = {'mode': 'iso', 'cal': cal, 'tz': tz, 'xyd': xyd,
             'ext_fmt': ext_fmt, 'pts': pts, 'ivs': ivs}
+    if draw(st.integers(0, 3)) == 0:
+        # the process worked in another calendar before (same points
+        # compared there, caches kept): nothing of that may leak
+        case['warm_cal'] = draw(st.sampled_from(
+            [c for c in CALS if c != cal]))
+    return case
 
 
 def cases():
@@ -481,9 +490,24 @@ def _check_iso(case, ctx):
             ztxt = ztxt[:3] + ':' + ztxt[3:]
         kw['custom_dump_format'] = (
             ('+X' if xyd else '') + 'CCYY-MM-DDThh:mm' + ztxt)
+    classes = ['iso', 'cal:' + cal, 'tz:' + str(tz), f'xyd:{xyd}']
+    if case.get('warm_cal'):
+        classes.append('other-calendar-used-before-in-process')
+        iso8601.init(**dict(kw, cycling_mode=case['warm_cal']))
+        warm = []
+        for pt in case['pts']:
+            try:
+                warm.append(ISO8601Point(spell_point(pt, cal, xyd)))
+            except Exception:    # noqa: BLE001 (a date the other calendar lacks)
+                pass
+        for a in warm:
+            for b in warm:
+                try:
+                    a < b, a == b, a.standardise()
+                except Exception:    # noqa: BLE001
+                    pass
     iso8601.init(**kw)
     assumed = tz_minutes(tz)
-    classes = ['iso', 'cal:' + cal, 'tz:' + str(tz), f'xyd:{xyd}']
     if case.get('ext_fmt'):
         classes.append('custom-dump-format')
     viol = []
